@@ -95,3 +95,17 @@ let () =
   register "convttx" (fun r ->
     let d = rint r in let ds = rdeliveries r in
     pres pstr ((match d with 0 -> convert_ttx_srt | 1 -> convert_ttx_vtt | 2 -> convert_ttx_ssa | 3 -> convert_ttx_stl | _ -> convert_ttx_ttml) ds))
+
+(* C17/C18, teletextFullReader (Model/TtxFull.v): ttxfull: data, end (0 = end-of-file, 1+k = failure at offset k), counts,
+   end signal with the last bytes, request sizes -> what each Read of the wrapper returns (bytes, 0 nil / 1 EOF / 2 failure);
+   ttxfullspec: the one-shot sequence of the same stream *)
+let () =
+  let rnat r = nat_of_int (rint r) in
+  let psig = function None -> pint 0 | Some TfEOF -> pint 1 | Some TfFault -> pint 2 in
+  let pseq l = plist (fun (b, s) -> pstr b; psig s) l in
+  let rcase r =
+    let d = rstr r in let e = rint r in let cs = rlist rnat r in let w = rbool r in let ns = rlist rnat r in
+    (tf_of d (if e = 0 then SEof else SFail (nat_of_int (e - 1))) cs w, ns) in
+  register "ttxfull" (fun r -> let (s, ns) = rcase r in
+    match tf_reads s ns with None -> pint 0 | Some l -> pint 1; pseq l);
+  register "ttxfullspec" (fun r -> let (s, ns) = rcase r in pint 1; pseq (tf_oneshot s.tf_avail s.tf_end ns))
